@@ -340,5 +340,10 @@ harness(void)
 	SKEL
 	if (!kstop)
 		WITNESS("skeleton ran to its end");
+#ifdef MUSTEND
+	/* a curated skeleton whose every event is applicable on the library as it should be: an event that finds nothing to act
+	 * on (e.g. no transfer outstanding because a message vanished) is a failure, not the end of the skeleton */
+	CHECK(!kstop, "every event of the skeleton found the library in the state the previous events must have left it in");
+#endif
 	WITNESS("end");
 }
